@@ -14,6 +14,8 @@ def run(ctx):
     R.floor("ORD-1", 30)
     lib_const.check(ctx, names=set(), rule="CONST", enums=True)
     R.floor("CONST", 7)
+    from rules import lib_nonverbose
+    lib_nonverbose.check(ctx)
     try:
         from rules import lib_panic
         lib_panic.check(ctx, [FN], None, rule="PANIC")
